@@ -4,8 +4,8 @@ PROP = {
     "level": "exploration",
     "engine": "py-hypothesis-harness",
     "rule": ("(1) histories of up to 50 steps {call(outcome in ok / gateway error header / gateway connection error / application exception, "
-             "destination allowed or filtered, call duration), advance(delta: absolute, cool-down +-{0, .25, .5, 1}s, or to the expiry instant "
-             "+-{0, .25, 1}s), read of state_ok} against the real FailSafe built from the environment variables "
+             "destination allowed or filtered, call duration), advance(delta: absolute, cool-down +-{0, .125, .25, .5, 1}s, or to the expiry instant "
+             "+-{0, .125, .25, 1}s), read of state_ok} against the real FailSafe built from the environment variables "
              "(threshold 1-5, cool-down 1-10 s) and used exactly like hooks/requests.py uses it; (2) the same histories issued as "
              "Session.request() calls through the real RequestsHook closure with stub requests/yarl modules and three filter configurations; "
              "(3) traffic-filter cases: LUNAR_BLOCK_LIST / LUNAR_ALLOW_LIST strings (absent, empty, valid, invalid, mixed), a generated resolver "
@@ -15,7 +15,7 @@ PROP = {
              "address on the first/last address of 10/8, 127/8, 172.16/12, 192.168/16 or directly outside. distinct = canonical JSON of the case"),
     "assumptions": [
         "the package __init__ files are replaced by empty shells (aiohttp/yarl/requests are not installed); fail_safe.py, traffic_filter.py, configuration.py, helpers.py, hooks/const.py, hooks/hook.py, hooks/helpers.py and hooks/requests.py run unchanged; _load_fail_safe and _build_traffic_filter_from_env_vars are extracted from the package __init__.py and executed, so the configuration path environment -> FailSafeConfig -> FailSafe is the package's own",
-        "the clock is the module attribute `time` of fail_safe.py (plus time.time/monotonic while interceptor code runs), instants are multiples of 0.25 s; at now - trip == cool-down exactly both answers are accepted",
+        "the clock is the module attribute `time` of fail_safe.py (plus time.time/monotonic while interceptor code runs), instants are multiples of 0.125 s; at now - trip == cool-down exactly both answers are accepted",
         "exceptions used as 'not from the gateway' are ValueError, RuntimeError, KeyError, a custom Exception and a custom BaseException; time-outs and OS-level connection errors are not used in that role because the statement does not say on which side they fall",
         "only the requests hook is driven; the aiohttp and tornado hooks use the same FailSafe/TrafficFilter objects but are not executed (libraries absent)",
         "resolver = socket.gethostbyname replaced by a generated table; names that CPython's gethostbyname rejects while encoding its argument (IDNA) are passed to the real function, which fails before any lookup; no network access is possible (getaddrinfo & co. are guarded)",
@@ -34,6 +34,6 @@ PROP = {
                   "TrafficFilter.is_allowed against an independent statement of the private ranges and list semantics, with a generated resolver"),
     "level_text": ("generated call/clock histories and generated list/destination/resolver cases are executed on the interceptor's real Python "
                    "modules and compared with reference models; failing cases are shrunk by Hypothesis and stored as replayable JSON; this is search, not proof"),
-    "level_note": "Python interceptor only, requests hook only; virtual clock with 0.25 s resolution; equality at the expiry instant accepted both ways",
+    "level_note": "Python interceptor only, requests hook only; virtual clock with 0.125 s resolution; equality at the expiry instant accepted both ways",
     "design_ref": "DESIGN.md section 2, C19",
 }
